@@ -221,6 +221,10 @@ def judge(ctx, tspec, gspecs, values, fill, dtype, all_touched_check=True):
         except Exception as e:
             ctx.violate_exc("raises", f"raises_on_repeat:{type(e).__name__}", e, spec=spec)
     # all_touched only ever adds cells
+    if all_touched_check and any(_eqnan(np.array([cast(v)], dtype=float), np.array([fillv], dtype=float))[0] for v in vals_list):
+        # a geometry painted with the fill value erases cells: "marked" is then not monotone in all_touched
+        ctx.note("all_touched_not_judged:a_value_equals_fill")
+        all_touched_check = False
     if all_touched_check:
         try:
             res2 = O.rasterize(gs, arr, all_touched=True, **kw)
@@ -336,6 +340,10 @@ def run(ctx):
             fill = -1
         values = rng.choice(["scalar", "list", "list"]) if ng > 1 else rng.choice(["scalar", "list"])
         vals = rng.choice([1, 3, 7]) if values == "scalar" else [k + 1 for k in range(ng)]
+        if isinstance(vals, list) and rng.random() < 0.35:
+            # values are the caller's: they may repeat, and one of them may coincide with the fill value (an "eraser")
+            pool_v = [v for v in (fill, fill, vals[0], 0, 2, 5) if v == v or dtype.startswith("float")]
+            vals = [rng.choice(pool_v + [v]) for v in vals]
         if rng.random() < 0.04 and isinstance(vals, list):
             vals = vals + [9]
         sq = "square" if nt == nf else "nonsquare"
